@@ -323,7 +323,7 @@ def run(ctx: Ctx) -> None:
     outs, err = coq_eval(IMPORTS, ['(length (filter (fun c => match fold (fst (fst c)) with Unmodelled => false | _ => true end) cases), length (filter (fun c => match py_eval (fst (fst c)) with PUnspec => false | _ => true end) cases))'],
                          prelude='Definition cases : list (expr * outcome * presult) := [\n%s\n].' % ';\n'.join(cases[:400]))
     ctx.extra['model_decided_of_first_400'] = outs[0] if outs else err[-300:]
-
+    enum_references(ctx)
 
 def shrink_sig(t, r, py):
     """a coarse, stable signature of a wrong value: which construct kinds appear in the smallest failing sub-expression"""
@@ -359,6 +359,63 @@ def shrink_sig(t, r, py):
             kinds.append(type(node.value).__name__)
     return sorted(set(kinds))
 
+
+
+def enum_references(ctx: Ctx) -> None:
+    """enum members that refer to other members (of the same and of other enums, some with equal names):
+    every member folded with one shared evaluator, in module order, must equal the value CPython gives"""
+    lib_shim = shim
+    lib_shim()
+    import tsession
+    import rogw.tranp.syntax.node.definition as defs
+    from rogw.tranp.transpiler.types import Evaluator
+    from rogw.tranp.errors import Errors
+    rnd = ctx.rnd
+    for k in range(ctx.n(25, 1500)):
+        enums, lines = [], ['from enum import Enum', '']
+        for ei in range(rnd.randint(2, 3)):
+            en = 'E%d' % ei
+            members = []
+            lines.append('class %s(Enum):' % en)
+            for mn in rnd.sample(['A', 'B', 'C', 'D'], rnd.randint(2, 3)):
+                c = rnd.random()
+                if members and c < .35:
+                    val = '%s %s %d' % (rnd.choice(members), rnd.choice(['+', '*']), rnd.randint(1, 5))
+                elif enums and c < .7:
+                    oe, om = rnd.choice([(e2, m2) for e2, ms in enums for m2 in ms])
+                    val = '%s.%s.value %s %d' % (oe, om, rnd.choice(['+', '*']), rnd.randint(1, 5))
+                    if members and rnd.random() < .5:
+                        val = '%s + %s' % (rnd.choice(members), val)
+                else:
+                    val = str(rnd.choice([1, 2, 10, 20, 100]) + ei)
+                lines.append('\t%s = %s' % (mn, val))
+                members.append(mn)
+            lines.append('')
+            enums.append((en, members))
+        src = '\n'.join(lines) + '\n'
+        env = {}
+        exec(src, env)
+        ctx.case(src, True)
+        try:
+            sess = tsession.Session({'__main__': src})
+            mod = sess.load('__main__')
+            ev = sess.resolve(Evaluator)
+        except Exception as e:
+            ctx.violation('enum-module-rejected', 'a module of enums referring to each other is rejected', dict(input=dict(expression=src), impl_result=repr(e)[:300]))
+            continue
+        nodes = {n.symbol.tokens: n for n in mod.entrypoint.statements if isinstance(n, defs.Enum)}
+        for en, members in enums:
+            for mn in members:
+                want = env[en][mn].value
+                ctx.evaluations += 1
+                try:
+                    got = ev.exec(nodes[en].var_value(mn))
+                except Errors.Error as e:
+                    got = 'ERR ' + type(e).__name__
+                if got != want or type(got) is not type(want):
+                    ctx.violation('enum-reference', 'an enum member that refers to other members folds to %r, CPython gives %r' % (got, want),
+                                  dict(input=dict(expression=src, member=en + '.' + mn), oracle_result=repr(want), impl_result=repr(got)))
+                    break
 
 def replay(ctx: Ctx, data: dict) -> int:
     import evalrun
